@@ -2442,10 +2442,38 @@ func sharedNoLoopCarried(c *an.Ctx, rule string, prefixes ...string) (examined i
 						if b, ok := x.Call.Value.(*ssa.Builtin); ok && b.Name() == "append" {
 							return walk(x.Call.Args[0], d+1)
 						}
-						if n := an.CalleeName(x); strings.HasPrefix(n, "slices.Clone") || strings.HasPrefix(n, "slices.Clip") || strings.HasPrefix(n, "slices.Concat") {
+						if n := an.CalleeName(x); strings.HasPrefix(n, "slices.Clip") || strings.HasPrefix(n, "slices.Concat") {
 							for _, a := range x.Call.Args {
 								if walk(a, d+1) {
 									return true
+								}
+							}
+						}
+						// a repository converter or constructor that is handed the slice keeps it in its result
+						if cal := an.StaticCallee(x); cal != nil && cal.Pkg != nil && strings.Contains(cal.Pkg.Pkg.Path(), "AdGuardDNS") &&
+							(isConverterName(cal.Name()) || strings.HasPrefix(cal.Name(), "New") || strings.HasPrefix(cal.Name(), "new")) {
+							for _, a := range x.Call.Args {
+								if _, isSl := a.Type().Underlying().(*types.Slice); isSl && walk(a, d+1) {
+									return true
+								}
+							}
+						}
+					case *ssa.UnOp:
+						// the object a fresh inner literal was stored into: look at what was stored in its slice fields
+						if x.Op == token.MUL {
+							return walk(x.X, d+1)
+						}
+					case *ssa.Alloc:
+						if x.Referrers() != nil {
+							for _, r := range *x.Referrers() {
+								if fa, ok := r.(*ssa.FieldAddr); ok && fa.Referrers() != nil {
+									for _, rr := range *fa.Referrers() {
+										if st2, ok := rr.(*ssa.Store); ok && st2.Addr == ssa.Value(fa) {
+											if _, isSl := st2.Val.Type().Underlying().(*types.Slice); isSl && walk(st2.Val, d+1) {
+												return true
+											}
+										}
+									}
 								}
 							}
 						}
@@ -2907,6 +2935,352 @@ func sharedReplaceNotAccumulate(c *an.Ctx, rule string, prefixes ...string) (exa
 				"the setter stores a new list (or re-uses the buffer after cutting it to length 0)",
 				fmt.Sprintf("%s appends to the previous contents of %s.%s: entries removed by a later update stay in effect for the life of the process", name, typ, field))
 		})
+	}
+	return examined
+}
+
+// sharedNilOnlyAbsent is the rule for codecs of optional sub-messages: a
+// converter of the given packages that takes a pointer and returns a pointer
+// may return nil only because its input is nil.  A nil returned on any other
+// condition ("nothing to store", "disabled") silently drops settings on the
+// way to or from the file cache.  Returns the number of nil returns examined.
+func sharedNilOnlyAbsent(c *an.Ctx, rule string, allowed map[string]string, prefixes ...string) (examined int) {
+	for _, fn := range c.AllFns {
+		if fn.Blocks == nil || c.IsTestFile(fn.Pos()) || fn.Parent() != nil || strings.Contains(c.Pos(fn.Pos()), ".pb.go:") {
+			continue
+		}
+		k := an.FnKey(fn)
+		in := false
+		for _, p := range prefixes {
+			if strings.HasPrefix(k, p) {
+				in = true
+			}
+		}
+		if !in || !isConverterName(fn.Name()) || len(fn.Params) == 0 {
+			continue
+		}
+		if _, isPtr := fn.Params[0].Type().Underlying().(*types.Pointer); !isPtr {
+			continue
+		}
+		res := fn.Signature.Results()
+		if res.Len() == 0 {
+			continue
+		}
+		if _, isPtr := res.At(0).Type().Underlying().(*types.Pointer); !isPtr {
+			continue
+		}
+		for _, r := range an.Returns(fn) {
+			if len(r.Results) == 0 || !an.IsNilConst(r.Results[0]) {
+				continue
+			}
+			// an error return (nil, ..., err) is not "absent"
+			if n := len(r.Results); n >= 2 && !an.IsNilConst(r.Results[n-1]) && types.Identical(res.At(n-1).Type(), types.Universe.Lookup("error").Type()) {
+				continue
+			}
+			examined++
+			c.Analysed(k)
+			bad := ""
+			for _, p := range r.Block().Preds {
+				ifi, ok := p.Instrs[len(p.Instrs)-1].(*ssa.If)
+				if !ok {
+					bad = "an unconditional path"
+					continue
+				}
+				bo, ok := ifi.Cond.(*ssa.BinOp)
+				onTrue := p.Succs[0] == r.Block()
+				// a confirmed second reason: "<fn>" -> "<access path of the flag>=<value on which nil is returned>"
+				if want := allowed[k]; want != "" {
+					if ap, okp := an.AccessPath(ifi.Cond); okp && want == fmt.Sprintf("%s=%v", ap, onTrue) {
+						continue
+					}
+				}
+				if !ok || !(bo.Op == token.EQL && onTrue || bo.Op == token.NEQ && !onTrue) ||
+					!(bo.X == ssa.Value(fn.Params[0]) && an.IsNilConst(bo.Y) || bo.Y == ssa.Value(fn.Params[0]) && an.IsNilConst(bo.X)) {
+					bad = "a condition other than the input being nil (" + ifi.Cond.String() + ")"
+				}
+			}
+			c.Check(bad == "", rule, k+" returns nil only for a nil input", r.Pos(),
+				"nil is returned only when the input is nil", "nil is returned on "+bad+": present settings are dropped by the conversion")
+		}
+	}
+	return examined
+}
+
+// sharedPoolNewFresh is the freshness rule for pool constructors: the function
+// handed to syncutil.NewPool / sync.Pool.New must build every object (and every
+// buffer it puts into it) anew; an object or buffer that comes from a variable
+// captured by the closure (or from a package variable) is shared by all pooled
+// objects, so two requests in flight write into the same memory.  Returns the
+// number of constructors examined.
+func sharedPoolNewFresh(c *an.Ctx, rule string) (examined int) {
+	ctors := poolCtors(c)
+	// sync.Pool{New: f}
+	for _, fn := range c.AllFns {
+		if fn.Blocks == nil || c.IsTestFile(fn.Pos()) {
+			continue
+		}
+		an.Instrs(fn, func(in ssa.Instruction) {
+			st, ok := in.(*ssa.Store)
+			if !ok {
+				return
+			}
+			if typ, field, _, ok := an.FieldOf(st.Addr); ok && typ == "sync.Pool" && field == "New" {
+				switch a := st.Val.(type) {
+				case *ssa.MakeClosure:
+					if f, ok := a.Fn.(*ssa.Function); ok {
+						ctors[f] = true
+					}
+				case *ssa.Function:
+					ctors[a] = true
+				}
+			}
+		})
+	}
+	isRef := func(t types.Type) bool {
+		switch t.Underlying().(type) {
+		case *types.Pointer, *types.Slice, *types.Map, *types.Chan:
+			return true
+		}
+		return false
+	}
+	for fn := range ctors {
+		if fn.Blocks == nil || c.IsTestFile(fn.Pos()) || !c.InRepo(fn) {
+			continue
+		}
+		examined++
+		k := an.FnKey(fn)
+		c.Analysed(k)
+		bad := ""
+		// a reference that reaches the returned object from outside the constructor
+		var shared func(v ssa.Value, d int) string
+		seen := map[ssa.Value]bool{}
+		shared = func(v ssa.Value, d int) string {
+			if v == nil || seen[v] || d > 10 {
+				return ""
+			}
+			seen[v] = true
+			switch x := v.(type) {
+			case *ssa.FreeVar:
+				if isRef(x.Type()) {
+					// a captured variable cell: what matters is what it holds
+					if p, ok := x.Type().Underlying().(*types.Pointer); ok && !isRef(p.Elem()) {
+						if _, isStruct := p.Elem().Underlying().(*types.Struct); !isStruct {
+							return ""
+						}
+					}
+					return "the captured variable " + x.Name()
+				}
+			case *ssa.Global:
+				return "the package variable " + x.Name()
+			case *ssa.UnOp:
+				if x.Op == token.MUL {
+					if fv, ok := x.X.(*ssa.FreeVar); ok && isRef(x.Type()) {
+						return "the captured variable " + fv.Name()
+					}
+					if g, ok := x.X.(*ssa.Global); ok && isRef(x.Type()) {
+						return "the package variable " + g.Name()
+					}
+				}
+			case *ssa.Call:
+				// a constructor called with shared storage (bytes.NewBuffer(initBuf))
+				for _, a := range x.Call.Args {
+					if isRef(a.Type()) {
+						if s := shared(a, d+1); s != "" {
+							return s
+						}
+					}
+				}
+			case *ssa.MakeInterface:
+				return shared(x.X, d+1)
+			case *ssa.ChangeType:
+				return shared(x.X, d+1)
+			case *ssa.Slice:
+				return shared(x.X, d+1)
+			case *ssa.Phi:
+				for _, e := range x.Edges {
+					if s := shared(e, d+1); s != "" {
+						return s
+					}
+				}
+			case *ssa.Alloc:
+				// a literal built here: look at the references stored into it
+				if x.Referrers() != nil {
+					for _, r := range *x.Referrers() {
+						if fa, ok := r.(*ssa.FieldAddr); ok && fa.Referrers() != nil {
+							for _, rr := range *fa.Referrers() {
+								if st, ok := rr.(*ssa.Store); ok && st.Addr == ssa.Value(fa) && isRef(st.Val.Type()) {
+									if s := shared(st.Val, d+1); s != "" {
+										return s
+									}
+								}
+							}
+						}
+					}
+				}
+			}
+			return ""
+		}
+		for _, r := range an.Returns(fn) {
+			for _, res := range r.Results {
+				if s := shared(res, 0); s != "" {
+					bad = s
+				}
+			}
+		}
+		c.Check(bad == "", rule, k+" builds a fresh object", fn.Pos(),
+			"the pooled object and the references stored in it are created inside the constructor",
+			"every object of this pool shares "+bad+": concurrent users of two pooled objects write into the same memory")
+	}
+	return examined
+}
+
+// sharedSwappedArgs is the argument-order rule: when a call passes, to two
+// parameters of identical type, values whose own names (parameter, field or
+// getter names) match the *other* parameter's name, the arguments are crossed.
+// Names are compared after normalisation (case, underscores).  Returns the
+// number of call sites with two or more same-typed named arguments examined.
+func sharedSwappedArgs(c *an.Ctx, rule string, prefixes ...string) (examined int) {
+	nameOf := func(v ssa.Value) string {
+		switch x := v.(type) {
+		case *ssa.Parameter:
+			return x.Name()
+		case *ssa.FreeVar:
+			return x.Name()
+		}
+		if _, f, ok := fieldSource(v, 0); ok {
+			return f
+		}
+		return ""
+	}
+	for _, fn := range c.AllFns {
+		if fn.Blocks == nil || c.IsTestFile(fn.Pos()) || strings.Contains(c.Pos(fn.Pos()), ".pb.go:") {
+			continue
+		}
+		k := an.FnKey(fn)
+		in := false
+		for _, p := range prefixes {
+			if strings.HasPrefix(k, p) {
+				in = true
+			}
+		}
+		if !in {
+			continue
+		}
+		for _, call := range an.Calls(fn) {
+			callee := an.StaticCallee(call)
+			if callee == nil || !c.InRepo(callee) || callee.Signature.Variadic() {
+				continue
+			}
+			args := call.Common().Args
+			params := callee.Params
+			if len(args) != len(params) {
+				continue
+			}
+			type na struct {
+				i    int
+				name string
+			}
+			var named []na
+			for i, a := range args {
+				if n := normName(nameOf(a)); n != "" && params[i].Name() != "" && params[i].Name() != "_" {
+					named = append(named, na{i, n})
+				}
+			}
+			if len(named) < 2 {
+				continue
+			}
+			counted := false
+			for x := 0; x < len(named); x++ {
+				for y := x + 1; y < len(named); y++ {
+					i, j := named[x].i, named[y].i
+					if !types.Identical(params[i].Type(), params[j].Type()) {
+						continue
+					}
+					if !counted {
+						counted = true
+						examined++
+					}
+					pi, pj := normName(params[i].Name()), normName(params[j].Name())
+					if pi == pj {
+						continue
+					}
+					if named[x].name == pj && named[y].name == pi || (named[x].name == pj && named[x].name != pi && named[y].name != pj) || (named[y].name == pi && named[y].name != pj && named[x].name != pi) {
+						c.Analysed(k)
+						c.Bad(rule, fmt.Sprintf("%s call of %s: arguments %d and %d", k, an.Short(an.FnKey(callee)), i, j), call.Pos(),
+							"argument %q is passed as parameter %q while the callee has a parameter %q of the same type: the arguments are crossed",
+							nameOf(args[i]), params[i].Name(), params[j].Name())
+					}
+				}
+			}
+		}
+	}
+	return examined
+}
+
+// sharedPerIterationObjects is the rule for accept / stream loops: a pointer
+// to a struct that is attached to a per-request context (a call of a With*/
+// ContextWith* function) inside a loop must point to an object allocated in the
+// same iteration.  An object hoisted out of the loop is shared by every request
+// of the connection: its start time is the connection's, and its fields are
+// overwritten while earlier requests still use it.  Returns the number of
+// attachments inside loops examined.
+func sharedPerIterationObjects(c *an.Ctx, rule string, prefixes ...string) (examined int) {
+	for _, fn := range c.AllFns {
+		if fn.Blocks == nil || c.IsTestFile(fn.Pos()) {
+			continue
+		}
+		k := an.FnKey(fn)
+		in := false
+		for _, p := range prefixes {
+			if strings.HasPrefix(k, p) {
+				in = true
+			}
+		}
+		if !in {
+			continue
+		}
+		loops := naturalLoops(fn)
+		if len(loops) == 0 {
+			continue
+		}
+		for _, call := range an.Calls(fn) {
+			callee := an.StaticCallee(call)
+			if callee == nil || !(strings.HasPrefix(callee.Name(), "ContextWith") || strings.HasPrefix(callee.Name(), "With")) || !c.InRepo(callee) {
+				continue
+			}
+			// the innermost loop around the call
+			var loop *loopInfo
+			for _, l := range loops {
+				if l.blocks[call.Block()] && (loop == nil || len(l.blocks) < len(loop.blocks)) {
+					loop = l
+				}
+			}
+			if loop == nil {
+				continue
+			}
+			for _, a := range call.Common().Args {
+				p, isPtr := a.Type().Underlying().(*types.Pointer)
+				if !isPtr {
+					continue
+				}
+				if _, isStruct := p.Elem().Underlying().(*types.Struct); !isStruct || an.TypeName(a.Type()) == "" {
+					continue
+				}
+				examined++
+				c.Analysed(k)
+				al, isAlloc := a.(*ssa.Alloc)
+				key := fmt.Sprintf("%s attaches a per-request %s inside its loop", k, an.TypeName(a.Type()))
+				switch {
+				case isAlloc && loop.blocks[al.Block()]:
+					c.Ok(rule, key, call.Pos(), "the object is allocated in the iteration that attaches it")
+				case isAlloc:
+					c.Bad(rule, key, call.Pos(), "the %s attached to each request's context is allocated once outside the loop: all requests of the connection share it (same start time; fields overwritten while in use)", an.TypeName(a.Type()))
+				default:
+					// a pooled object, a parameter, …: not this rule's business
+					examined--
+				}
+			}
+		}
 	}
 	return examined
 }
